@@ -77,6 +77,12 @@ NextLag ==
     \/ ~txn.open /\ (LagOp \/ TxnBegin \/ DropVector \/ (\E s \in SubIds, k \in {0, 1} : Poll(s, k)))
 SpecLag == PInit /\ [][NextLag]_vars
 
+(* deep lag: one or two subscribers far behind (capacities whose rounded buffer is larger than the capacity) *)
+NextLagDeep ==
+    \/ PushBack("v", fresh) \/ SetAt("v", 0, fresh, "Set")
+    \/ (\E s \in SubIds, k \in {0, 1} : Poll(s, k))
+SpecLagDeep == PInit /\ [][NextLagDeep]_vars
+
 (* streams from a pre-populated vector: every mutator, lag, drop *)
 SpecStreamsPre == PInit /\ [][NextStreams]_vars
 
